@@ -49,6 +49,13 @@ Proof.
   apply IH; [eapply endsnz_tail; eauto | eapply endsnz_zero_more; eauto].
 Qed.
 
+Lemma is_nil_sparse cs i : endsnz cs -> is_nil (sparse i cs) = is_nil cs.
+Proof.
+  intro He. destruct cs as [|c cs]; [reflexivity|].
+  pose proof (sparse_nonempty (c :: cs) i He ltac:(discriminate)) as H.
+  destruct (sparse i (c :: cs)); [contradiction|reflexivity].
+Qed.
+
 Lemma sparse_nonzero : forall cs i j c, In (j, c) (sparse i cs) -> c <> 0.
 Proof.
   induction cs as [|a cs IH]; intros i j c H; [contradiction|]. cbn [sparse] in H.
@@ -128,19 +135,13 @@ Section PolyText.
       assert (T0 : (if p0 =? 1 then print_Z p0 else [40] ++ print_Z p0 ++ [41]) = term 0 p0) by reflexivity.
       assert (T1 : term_coeff print_Z p1 ++ var = term 1 p1) by reflexivity.
       rewrite T0, T1.
-      pose proof (endsnz_tail _ _ He) as He1.
-      destruct (Z.eqb_spec p0 0) as [->|H0], (Z.eqb_spec p1 0) as [->|H1]; cbn [orb app].
+      pose proof (endsnz_tail _ _ He) as He1. pose proof (endsnz_tail _ _ He1) as He2.
+      destruct (Z.eqb_spec p0 0) as [->|H0], (Z.eqb_spec p1 0) as [->|H1]; cbn [orb app];
+        rewrite ?join_cons; cbn [fst snd is_nil]; rewrite ?(is_nil_sparse tl2 2 He2).
       + reflexivity.
-      + rewrite join_cons. cbn [fst snd]. destruct tl2; cbn [is_nil]; rewrite <- ?app_assoc; reflexivity.
-      + pose proof (endsnz_zero_more _ He1) as Hn2.
-        pose proof (sparse_nonempty tl2 2 (endsnz_tail _ _ He1) Hn2) as Hs.
-        rewrite join_cons. cbn [fst snd]. destruct (sparse 2 tl2); [contradiction|]. cbn [is_nil]. rewrite <- ?app_assoc. reflexivity.
-      + rewrite join_cons. cbn [fst snd is_nil]. rewrite join_cons. cbn [fst snd].
-        destruct tl2 as [|p2 tl3].
-        * cbn [is_nil sparse join app]. rewrite <- ?app_assoc. reflexivity.
-        * cbn [is_nil].
-          pose proof (sparse_nonempty (p2 :: tl3) 2 (endsnz_tail _ _ He1) ltac:(discriminate)) as Hs.
-          destruct (sparse 2 (p2 :: tl3)); [contradiction|]. cbn [is_nil]. rewrite <- ?app_assoc. reflexivity.
+      + destruct tl2; cbn [is_nil sparse join app]; rewrite <- ?app_assoc; reflexivity.
+      + pose proof (endsnz_zero_more _ He1) as Hn2. destruct tl2; [contradiction|]. cbn [is_nil app]. rewrite <- ?app_assoc. reflexivity.
+      + destruct tl2; cbn [is_nil sparse join app]; rewrite <- ?app_assoc; reflexivity.
   Qed.
 
   (* ---- the reference parser reads a join back *)
@@ -157,6 +158,7 @@ Section PolyText.
     destruct l as [|d l]; [contradiction|]. inversion Hl as [|? ? Hd Hl']; subst. apply digit_range in Hd as Hd'.
     destruct (Z.ltb_spec z 0).
     - cbn [app]. change (45 =? 45) with true. cbn iota.
+      change (d :: l ++ rs) with ((d :: l) ++ rs).
       rewrite (scan_digits_spec (d :: l) rs 0 false Hl Hr). cbn [is_nil negb orb]. rewrite Hv. do 2 f_equal. lia.
     - cbn [app]. destruct (Z.eqb_spec d 45); [lia|].
       change (d :: l ++ rs) with ((d :: l) ++ rs).
@@ -198,7 +200,7 @@ Section PolyText.
         destruct Eh as (t & Et). rewrite Et. destruct (Z.eqb_spec v0 40); [contradiction|].
         rewrite <- Et. rewrite parse_mono_ok by (auto; lia). reflexivity.
       + (* "(c)*" mono *)
-        rewrite <- !app_assoc. cbn [app]. rewrite <- !app_assoc. cbn [app].
+        rewrite <- ?app_assoc. cbn [app]. rewrite <- ?app_assoc. cbn [app].
         unfold parse_term. change (40 =? 40) with true. cbn iota.
         rewrite (parse_int_print c (41 :: 42 :: mono i ++ rs) eq_refl). change (41 =? 41) with true. change (42 =? 42) with true. cbn iota.
         rewrite parse_mono_ok by (auto; lia). reflexivity.
@@ -252,15 +254,16 @@ Section PolyText.
       rewrite (poly_write_join R Hne). rewrite E.
       pose proof (setdegree_endsnz R) as He. rewrite E in He.
       pose proof (sparse_nonempty (p0 :: tl) 0 He ltac:(discriminate)) as Hs.
-      set (ts := sparse 0 (p0 :: tl)) in *.
+      assert (Hnz : forall j c, In (j, c) (sparse 0 (p0 :: tl)) -> c <> 0) by (intros j c; apply sparse_nonzero).
+      remember (sparse 0 (p0 :: tl)) as ts eqn:Ets.
       assert (Hp : parse_terms (S (length (join ts))) var (join ts) = Some ts).
-      { apply parse_terms_ok; auto. apply sparse_terms_ok; lia. pose proof (join_length ts). lia. }
+      { apply parse_terms_ok; auto. rewrite Ets. apply sparse_terms_ok; lia. pose proof (join_length ts). lia. }
       unfold poly_parse. destruct (join ts) as [|a [|b l]] eqn:Ej; auto.
       (* a one-character text: it is not "0" *)
       destruct (Z.eqb_spec a 48) as [->|]; auto. exfalso.
       destruct ts as [|[i c] ts']; [contradiction|]. rewrite join_cons in Ej. cbn [fst snd] in Ej.
       destruct var_head as (v0 & vt & Ev & _ & Hvd).
-      assert (Hc : c <> 0) by (eapply (sparse_nonzero (p0 :: tl) 0 i c); fold ts; left; reflexivity).
+      assert (Hc : c <> 0) by (apply (Hnz i c); left; reflexivity).
       unfold term in Ej. destruct (i =? 0).
       + destruct (Z.eqb_spec c 1) as [->|]; [discriminate Ej|]. discriminate Ej.
       + unfold term_coeff, mono in Ej. destruct (c =? 1); [|discriminate Ej]. cbn [app] in Ej.
